@@ -81,7 +81,10 @@ def lost_models(ref, now):
         # out as "any bool".  Other constructs left without their rule (std calls without a specification, iterator chains) make Verus refuse the unit, which is INFRA already.
         m = re.match(r"R\d+b?\.\w[\w-]* `(.*?)` =>", k)
         pattern = m.group(1) if m else k
-        if re.search(r"(==|!=)", pattern):
+        # ... and text formatting: `format!` is modelled as an UNINTERPRETED function of its literal and arguments (nfmt!).  A function that builds the same text another way
+        # (push_str, join, concatenation - all of which Verus gives their concrete meaning) can never be related to that model, so a clause about the text fails although nothing
+        # changed (harmless/C04/h7: get_replicate_increment_message re-spelled with push_str raised VIOLATIONs in eleven properties)
+        if re.search(r"(==|!=)", pattern) or re.match(r"format(_args)?!\(", pattern):
             out.append("%s: %d -> %d" % (k[:90], n, now.get(k, 0)))
     return out
 
@@ -99,7 +102,7 @@ def run_unit(unit_name, rlimit=None, extra_args=()):
     # a body Verus / rustc refuses (an std call without a specification, a construct outside the subset - typically after a refactoring) makes the WHOLE unit undecided; keep the
     # failure local instead: the functions the compile errors point into are retried as functions whose extraction failed (contract kept, body not verified, reported under `lost`),
     # at most twice - what they carry is undecided, the rest of the unit is decided as before
-    for _attempt in range(2):
+    for _attempt in range(4):
         owners = r.get("compile_error_owners") or {}
         if not owners or not r["infra"]:
             break
@@ -113,13 +116,15 @@ def run_unit(unit_name, rlimit=None, extra_args=()):
         except Exception:
             extract.FORCE_LOST.clear()
             raise
-    extract.FORCE_LOST.clear()
-    if rlimit is None and any("rlimit" in x.lower() or "resource limit" in x.lower() for x in r["infra"]):
-        # a solver resource limit is not a verdict: retry once with a ten times larger budget
-        r2 = _run_unit(unit_name, 100, extra_args)
-        r2["retried_with_rlimit"] = 100
-        return r2
-    return r
+    try:
+        if rlimit is None and any("rlimit" in x.lower() or "resource limit" in x.lower() for x in r["infra"]):
+            # a solver resource limit is not a verdict: retry once with a ten times larger budget (the same functions left out)
+            r2 = _run_unit(unit_name, 100, extra_args)
+            r2["retried_with_rlimit"] = 100
+            return r2
+        return r
+    finally:
+        extract.FORCE_LOST.clear()
 
 
 def _run_unit(unit_name, rlimit=None, extra_args=()):
@@ -299,6 +304,7 @@ def _run_unit(unit_name, rlimit=None, extra_args=()):
             infra.append("%s: %s fails, but the extracted function still contains unmodelled text formatting (%s!): undecided, not a violation" % (
                 fn, f.get("obligation"), "!, ".join(unmodelled[fn]))); continue
         kept.append(f)
+    demoted_fns = set(f.get("fn") for f in failures if f not in kept)
     failures = kept
     # canaries: every fn named canary_* must have failed
     canaries = sorted(set(re.findall(r"(?m)^\s*(?:pub\s+)?proof fn (canary_\w+)", text)))
@@ -317,7 +323,7 @@ def _run_unit(unit_name, rlimit=None, extra_args=()):
                 times[f["function"]] = dict(ms=f["time-micros"] / 1000.0, ok=f["success"], rlimit=f.get("rlimit"))
     except Exception:
         pass
-    failed_fns = set(f["fn"] for f in failures) | canary_failed
+    failed_fns = set(f["fn"] for f in failures) | canary_failed | demoted_fns
     for fname, info in times.items():
         if not info["ok"]:
             short = fname.split("::", 1)[1] if "::" in fname else fname
